@@ -179,6 +179,23 @@ func (s *baseSelector) vary(seed int64, expired func() bool, f func(t *wire.N, w
 	return n, true
 }
 
+// varyPairs runs the same-element field-pair enumeration (corpus.NodePairVariations) over every
+// base, restricted like vary to the fields the base was chosen for.
+func (s *baseSelector) varyPairs(expired func() bool, f func(t *wire.N, what string)) (n int64, complete bool) {
+	for i, base := range s.bases {
+		if expired() {
+			return n, false
+		}
+		fresh := s.fresh[i]
+		corpus.NodePairVariations(base, func(t *wire.N) []wire.Mark { _, m := wire.Encode(t); return m },
+			func(node *wire.N, field string) bool {
+				return fresh[featureKind(node)+"."+field] && (s.skip == nil || !s.skip(node))
+			},
+			func(t *wire.N, what string) { n++; f(t, what) })
+	}
+	return n, true
+}
+
 func (s *baseSelector) offer(n *wire.N) {
 	if s.seen == nil {
 		s.seen = map[string]bool{}
